@@ -3,6 +3,7 @@ package c18
 
 import (
 	"bytes"
+	"context"
 	"encoding/hex"
 	"fmt"
 	"io"
@@ -39,7 +40,7 @@ type Case struct {
 	Method    string   `json:"method"`
 	BodyKind  string   `json:"body_kind"` // none (nil body) | bytes (length known, rewindable) | stream (opaque reader: chunked)
 	BodySize  int      `json:"body_size"`
-	SPN       string   `json:"spn"`           // explicit | derived-ip | derived-localhost
+	SPN       string   `json:"spn"`           // explicit | derived-ip | derived-localhost | derived-rooted (URL host "localhost.")
 	TktEType  int32    `json:"ticket_etype"`  // etype of the issued service ticket
 	SessEType int32    `json:"session_etype"` // etype of the client's keys and of the session keys
 	Lazy      bool     `json:"lazy_login"`    // Do is called on a client that has not logged in yet
@@ -216,8 +217,13 @@ func run(c Case) (evid.Verdict, Obs) {
 	ipB := kdc.UniqueIP()
 	hostA := httpsrv.HostSpec{ListenIP: ipA}
 	nameA := ipA
-	if c.SPN == "derived-localhost" {
+	switch c.SPN {
+	case "derived-localhost":
 		hostA = httpsrv.HostSpec{ListenIP: "127.0.0.1", URLName: "localhost"}
+		nameA = "localhost"
+	case "derived-rooted":
+		// a rooted name (trailing dot) in the URL, next to the port: the service is still HTTP/localhost
+		hostA = httpsrv.HostSpec{ListenIP: "127.0.0.1", URLName: "localhost."}
 		nameA = "localhost"
 	}
 	names := []string{nameA, ipB}
@@ -267,7 +273,14 @@ func run(c Case) (evid.Verdict, Obs) {
 		}
 	}
 	defer stop()
-	tr := &http.Transport{Proxy: nil, DisableCompression: true, DialContext: (&net.Dialer{Timeout: 10 * time.Second}).DialContext}
+	dialer := &net.Dialer{Timeout: 10 * time.Second}
+	tr := &http.Transport{Proxy: nil, DisableCompression: true, DialContext: func(ctx context.Context, network, addr string) (net.Conn, error) {
+		// the rooted name is not in /etc/hosts and there is no DNS: the caller's transport knows where it lives
+		if h, p, err := net.SplitHostPort(addr); err == nil && h == "localhost." {
+			addr = net.JoinHostPort("127.0.0.1", p)
+		}
+		return dialer.DialContext(ctx, network, addr)
+	}}
 	hc := &http.Client{Transport: tr}
 	defer tr.CloseIdleConnections()
 	spnArg := ""
@@ -754,8 +767,8 @@ func TestProp(t *testing.T) {
 
 	methods := []string{"GET", "HEAD", "POST"}
 	sizes := []int{0, 1, 4096, 65536, 1 << 20}
-	spns := []string{"explicit", "derived-ip", "derived-localhost"}
-	r.Rule("script: rapid-drawn server scripts (prefix of 0..5 steps over {200, 401 Negotiate, 401 Negotiate+reject token, 401 Basic, 302 same host, 302 other host, 500}, plus 307 same/other host, 308, 303, 301; weighted towards challenges and redirects; then a constant tail or, one time in four, a cycle of 2..3 non-final steps repeated for ever) x method {GET, HEAD, POST} x body {none, known-length, opaque stream} x size {0, 1, 4 KiB, 64 KiB, 1 MiB} x SPN {explicit, derived from an IP URL, derived from a localhost URL} x ticket etype (6) x session etype (6) x login {before, lazily} x entry point {Do, Get/Head/Post}; non-trivial = the part of the script a client can reach (up to the first 200/500/401-Basic/401-reject) contains a 401 Negotiate or a redirect")
+	spns := []string{"explicit", "derived-ip", "derived-localhost", "derived-rooted"}
+	r.Rule("script: rapid-drawn server scripts (prefix of 0..5 steps over {200, 401 Negotiate, 401 Negotiate+reject token, 401 Basic, 302 same host, 302 other host, 500}, plus 307 same/other host, 308, 303, 301; weighted towards challenges and redirects; then a constant tail or, one time in four, a cycle of 2..3 non-final steps repeated for ever) x method {GET, HEAD, POST} x body {none, known-length, opaque stream} x size {0, 1, 4 KiB, 64 KiB, 1 MiB} x SPN {explicit, derived from an IP URL, derived from a localhost URL, derived from a rooted localhost. URL} x ticket etype (6) x session etype (6) x login {before, lazily} x entry point {Do, Get/Head/Post}; non-trivial = the part of the script a client can reach (up to the first 200/500/401-Basic/401-reject) contains a 401 Negotiate or a redirect")
 	r.Rapid("script", r.N(1500, 20000), func(t *rapid.T) {
 		n := rapid.IntRange(0, 5).Draw(t, "len")
 		c := Case{Tail: string(rapid.SampledFrom(httpsrv.Alphabet).Draw(t, "tail")), Method: rapid.SampledFrom(methods).Draw(t, "method"),
@@ -862,7 +875,7 @@ func TestProp(t *testing.T) {
 	for _, pre := range keep {
 		for bi, b := range bodies {
 			k++
-			jobs = append(jobs, Case{Prefix: pre, Tail: "200", Method: "POST", BodyKind: b.kind, BodySize: b.size, SPN: spns[(k+bi)%3], TktEType: ref.ETypes[k%6], SessEType: ref.ETypes[(k/6)%6],
+			jobs = append(jobs, Case{Prefix: pre, Tail: "200", Method: "POST", BodyKind: b.kind, BodySize: b.size, SPN: spns[(k+bi)%len(spns)], TktEType: ref.ETypes[k%6], SessEType: ref.ETypes[(k/6)%6],
 				Seed: r.Seed()*15485863 + uint64(k)})
 			gens = append(gens, "enum-307-308")
 		}
